@@ -450,8 +450,10 @@ class StmtMixin:
         exc_val = st.exc[1]
         types_ = h.type.elts if isinstance(h.type, ast.Tuple) else [h.type]
         conds = []
+        tmp = st.copy()
+        tmp.exc = None
         for t in types_:
-            (s, tv), = self.eval(st, t)
+            (s, tv), = self.eval(tmp, t)
             if not (isinstance(tv, VFunc) and tv.kind == 'class'):
                 self.unsupported(node, 'except clause type')
             r = self.isinstance_of(st, exc_val, tv.key)
@@ -560,6 +562,10 @@ class StmtMixin:
         for i, inv in enumerate(invs):
             g = self.eval_clause(st, inv, self.visible_env(st), info, old_st=self.entry_state)
             self.check(st, g, '%s/inv[%d]/entry' % (tag, i), note=str(inv))
+        if ordinal is not None and self.cur_contract is not None:
+            for i, cl in enumerate(getattr(self.cur_contract, 'loop_entry', {}).get(ordinal, [])):
+                g = self.eval_clause(st, cl, self.visible_env(st), info, old_st=self.entry_state)
+                self.check(st, g, '%s/entry[%d]' % (tag, i), note=str(cl))
         # 2. find what the body modifies (discovery pass on a throw-away state)
         mod_names = assigned_names(n.body) | (assigned_names([n.target]) if hasattr(n, 'target') else set())
         mod_names = {m for m in mod_names if st.lookup(m)[0] is not None} | set(extra_mod)
